@@ -31,7 +31,7 @@ Binding(e) ==
         f == e.fault
     IN /\ f.kind \in {"none", "truncate", "corruptlen", "absent"}
        /\ f.kind = "truncate" => (f.n >= 0 /\ f.n < Total(a))
-       /\ f.kind = "corruptlen" => (f.i \in 1..NE(a) /\ f.delta # 0 /\ a.entries[f.i].size + f.delta >= 0)
+       /\ f.kind = "corruptlen" => (f.i \in 1..NE(a) /\ f.delta # 0 /\ a.entries[f.i].size + f.delta >= -8)
        /\ e.filelen = FileLen(a, f)
        /\ \A i, j \in 1..NE(a) : i # j => a.entries[i].name # a.entries[j].name
        /\ (f.kind = "absent" => e.obs.before = <<>>)
